@@ -1,6 +1,8 @@
 // shim base: global settings + logging + anyhow (DESIGN §2.2).  Trusted.
 verus! {
 global size_of usize == 8;
+/// T20: the result of a unit handler that was made `async` (Verus keeps an async fn's contract only for a non-unit result)
+pub enum VxDone { Done }
 }
 
 #[allow(unused_macros)]
